@@ -202,6 +202,7 @@ def snapshot_qop(q):
         out["arrays"] = [np.array(q.vec)]
     elif t == "Povm":
         out["arrays"] = [np.array(v) for v in q.vecs]
+        out["nums_local_outcomes"] = [int(n) for n in d.get("_nums_local_outcomes", [])]
     elif t == "Gate":
         out["arrays"] = [np.array(q.hs)]
     elif t == "MProcess":
